@@ -179,7 +179,8 @@ class Dataset:
     def _typed(self, r):
         if isinstance(r, SArr) and self._n.dtype is not None and \
                 _np.dtype(self._n.dtype).kind in 'iu':
-            r.decl = _np.dtype(self._n.dtype)
+            from .npshim import tagged
+            r = tagged(r, _np.dtype(self._n.dtype))
         return r
 
     def __setitem__(self, k, v):
